@@ -21,9 +21,9 @@ theorem RightDiagCell.facts {cum : List Cell} {dates : List Date} {n : Cell}
   have hop : o ∈ p.2 := (slices_spec hp o).mpr ⟨ho, hmd.trans hem⟩
   exact Date.lt_of_not_gt_of_lt (maxEval_ge hm o hop) hd.2
 
-structure DiagFacts (t cum new out : List Cell) (dates : List Date) : Prop where
+structure DiagFacts (t cum new out : List Cell) (dates : List Date) (hist : Bool := false) : Prop where
   cumOf : CumOf t cum
-  iff : ∀ n, n ∈ new ↔ RightDiagCell cum dates false n
+  iff : ∀ n, n ∈ new ↔ RightDiagCell cum dates hist n
   fwd : ∀ c ∈ out, ∃ n ∈ new, rowKey c = rowKey n ∧ c.ev = n.ev
   bwd : ∀ n ∈ new, ∃ c ∈ out, rowKey c = rowKey n ∧ c.ev = n.ev
   edges : ∀ p ∈ Triangle.slices cum, ∃ edge, Triangle.rightEdge p.2 = .ok edge
@@ -32,7 +32,7 @@ structure DiagFacts (t cum new out : List Cell) (dates : List Date) : Prop where
   fin : finishRight t new = .ok out
   newOk : ∀ n ∈ new, n.datesOk = true
   cumPerm : Triangle.isIncremental t = false → out.Perm new
-  newEq : rightDiagonalCells cum dates false = .ok new
+  newEq : rightDiagonalCells cum dates hist = .ok new
 
 theorem rightDiagonalCells_edges {cum new : List Cell} {dates : List Date} {hist : Bool}
     (h : rightDiagonalCells cum dates hist = .ok new) :
@@ -50,9 +50,22 @@ theorem rightDiagonalCells_edges {cum new : List Cell} {dates : List Date} {hist
     · cases hys
     · rename_i edge hedge; exact ⟨edge, hedge⟩
 
-theorem rightDiag_facts {t out : List Cell} {dates : List Date}
-    (h : makeRightDiagonal t dates false = .ok out) :
-    ∃ cum new, DiagFacts t cum new out dates := by
+theorem RightDiagCell.src {cum : List Cell} {dates : List Date} {hist : Bool} {n : Cell}
+    (h : RightDiagCell cum dates hist n) :
+    ∃ e ∈ cum, n = emptyCell e n.ev ∧ n.ev ∈ dates ∧ e.ps ≤ n.ev := by
+  obtain ⟨p, hp, edge, hedge, e, he, d, hd, hle, rfl⟩ := h
+  refine ⟨e, mem_of_mem_slices hp (rightEdge_latest hedge he).1, rfl, ?_, hle⟩
+  revert hd
+  unfold diagDatesOf
+  split
+  · exact id
+  · split
+    · intro hd; exact (List.mem_filter.mp hd).1
+    · exact id
+
+theorem rightDiag_facts {t out : List Cell} {dates : List Date} {hist : Bool}
+    (h : makeRightDiagonal t dates hist = .ok out) :
+    ∃ cum new, DiagFacts t cum new out dates hist := by
   cases hinc : Triangle.isIncremental t with
   | false =>
     obtain ⟨new, hnew, hfin⟩ := makeRightDiagonal_fin hinc h
@@ -77,7 +90,7 @@ theorem rightDiag_facts {t out : List Cell} {dates : List Date}
       · exact ⟨b, hb, hk.symm, he⟩
     · apply finishRight_inc_cover hinc hempty ?_ hfin
       intro n hn
-      obtain ⟨e, he, hne, _⟩ := ((hiff n).mp hn).facts
+      obtain ⟨e, he, hne, _⟩ := ((hiff n).mp hn).src
       obtain ⟨_, x, hx, hxk, _⟩ := (toCumulative_cells hinc hcum).1 e he
       obtain ⟨h1, h2, h3⟩ := rowKey_eq_iff.mp hxk
       refine ⟨x, hx, ?_, ?_⟩
